@@ -1,3 +1,4 @@
 SPECIFICATION TSpec
 CONSTANT ExtMarker = TRUE
+CONSTANT StickySw = FALSE
 CHECK_DEADLOCK FALSE
